@@ -47,6 +47,12 @@ def dump (st : St) : String :=
 
 def step' (spec : Bool) (st : St) : List String → St × String
   | ["reset", d] => (init (d = "d"), "ok")
+  -- "lc": the destination spelled in lower case, the same protocol; a number: the given-out counter at the start
+  | ["reset", d, x] =>
+    if x = "lc" then (if d = "d" then (init true, "ok") else (st, "bad-op")) else
+    match x.toNat? with
+    | some n => ({ init (d = "d") with s := MultiSwap.init (d = "d") (fun _ _ => 0) n }, "ok")
+    | none => (st, "bad-op")
   | ["fund", u, g, n] => match n.toInt? with
     | some n => ({ st with s := { st.s with srcA := upd st.s.srcA u (upd (st.s.srcA u) g (st.s.srcA u g + n)) } }, "ok")
     | none => (st, "bad-op")
